@@ -186,10 +186,128 @@ def overrides(repo):
     return {"Overrides.lean": {"changed": changed, "ListProxy": lp, "DictProxy": dp}}
 
 
+# ------------------------------------------------------------------------------------------------ effects
+
+def _dotted(node):
+    if isinstance(node, ast.Name):
+        return node.id
+    if isinstance(node, ast.Attribute):
+        b = _dotted(node.value)
+        return (b + "." if b else "?.") + node.attr
+    if isinstance(node, ast.Call):
+        return _dotted(node.func) + "()"
+    return "?"
+
+
+def _calls_in(expr, out, handle=None):
+    """calls of an expression in evaluation order (arguments before the call itself)"""
+    for child in ast.iter_child_nodes(expr):
+        _calls_in(child, out, handle)
+    if isinstance(expr, ast.Call):
+        name = _dotted(expr.func)
+        if name == "open":
+            out.append(("unknown", "open() outside a with statement"))
+        elif handle and name == handle + ".write":
+            arg = expr.args[0].id if expr.args and isinstance(expr.args[0], ast.Name) else "?"
+            out.append(("write", arg))
+        elif handle and name == handle + ".read":
+            out.append(("read", ""))
+        elif name.endswith(".write") or name.endswith(".writelines") or name.endswith(".truncate"):
+            out.append(("unknown", "write through " + name))
+        else:
+            out.append(("call", name))
+
+
+def _effects(stmts, handle=None):
+    out = []
+    for st in stmts:
+        if isinstance(st, ast.Expr) and isinstance(st.value, ast.Constant) and isinstance(st.value.value, str):
+            continue                                            # docstring
+        if isinstance(st, (ast.Assign, ast.AnnAssign, ast.Expr, ast.Return, ast.AugAssign)):
+            val = st.value
+            if val is None:
+                continue
+            calls = []
+            _calls_in(val, calls, handle)
+            tgt = ""
+            if isinstance(st, ast.Assign) and len(st.targets) == 1 and isinstance(st.targets[0], ast.Name):
+                tgt = st.targets[0].id
+            for i, (k, n) in enumerate(calls):
+                if k == "call":
+                    out.append(("call", tgt if i == len(calls) - 1 else "", n))
+                else:
+                    out.append((k, n))
+        elif isinstance(st, ast.With) and len(st.items) == 1 and isinstance(st.items[0].context_expr, ast.Call) \
+                and _dotted(st.items[0].context_expr.func) == "open":
+            call = st.items[0].context_expr
+            mode = call.args[1].value if len(call.args) > 1 and isinstance(call.args[1], ast.Constant) else "r"
+            pre = []
+            for a in call.args:
+                _calls_in(a, pre, handle)
+            out.extend(("call", "", n) if k == "call" else (k, n) for k, n in pre)
+            var = st.items[0].optional_vars.id if isinstance(st.items[0].optional_vars, ast.Name) else None
+            if "w" in mode or "a" in mode or "+" in mode or "x" in mode:
+                out.append(("openW", _dotted(call.args[0]) if call.args else "?"))
+            else:
+                out.append(("openR", _dotted(call.args[0]) if call.args else "?"))
+            out.extend(_effects(st.body, var))
+            out.append(("close", ""))
+        elif isinstance(st, ast.If):
+            calls = []
+            _calls_in(st.test, calls, handle)
+            out.extend(("call", "", n) if k == "call" else (k, n) for k, n in calls)
+            out.extend(_effects(st.body, handle))               # flattened: both branches, in source order
+            out.extend(_effects(st.orelse, handle))
+        elif isinstance(st, ast.Pass):
+            continue
+        else:
+            out.append(("unknown", type(st).__name__))
+    return out
+
+
+def _method(cls, name):
+    for n in cls.body:
+        if isinstance(n, ast.FunctionDef) and n.name == name:
+            return n
+    raise Unknown("%s.%s not found" % (cls.name, name))
+
+
+def _lean_eff(e):
+    if e[0] == "call":
+        return ".call %s %s" % (lstr(e[1]), lstr(e[2]))
+    if e[0] in ("openW", "openR"):
+        return ".%s %s" % (e[0], lstr(e[1]))
+    if e[0] == "write":
+        return ".write %s" % lstr(e[1])
+    if e[0] == "read":
+        return ".read"
+    if e[0] == "close":
+        return ".close"
+    return ".unknown %s" % lstr(e[1])
+
+
+def effects(repo):
+    core_mod = _parse(repo, "core.py")
+    cfg = _class(core_mod, "Config")
+    progs = {}
+    for m in ("save", "dumps", "load", "loads"):
+        progs[m] = _effects(_method(cfg, m).body)
+    t = ["import Cinco.TreeIO.Effects", "/- GENERATED by harness/extract.py from /repo on every run — do not edit. -/",
+         "namespace Cinco.Generated", "open Cinco.Effects", ""]
+    for m, effs in progs.items():
+        t.append("/-- statement order of `Config.%s` (cincoconfig/core.py) as an effect sequence -/" % m)
+        t.append("def %sProg : List Eff := [%s]" % (m, ", ".join(_lean_eff(e) for e in effs)))
+    t += ["", "end Cinco.Generated"]
+    changed = _write("Effects.lean", "\n".join(t) + "\n")
+    return {"Effects.lean": {"changed": changed, "save": [" ".join(x for x in e if x) for e in progs["save"]],
+                             "loads": [" ".join(x for x in e if x) for e in progs["loads"]]}}
+
+
 def run(repo):
     notes = {}
     notes.update(tables(repo))
     notes.update(overrides(repo))
+    notes.update(effects(repo))
     return notes
 
 
